@@ -742,3 +742,8 @@ func VerifPageDiff(pageURL, linkHref string, skip int) (int, bool) {
 
 // VerifInnerText is domutil.InnerText.
 func VerifInnerText(n *html.Node) string { return domutil.InnerText(n) }
+
+// VerifPageInfoOf: what the page-number finder makes of one anchor (number, URL, text).
+func VerifPageInfoOf(link *html.Node, pageURL *nurl.URL) (int, string, string, bool) {
+	return pagination.VerifPageInfoOf(link, pageURL)
+}
